@@ -81,12 +81,12 @@ PROPS = {
     },
     'C12': {
         'level': 'proof',
-        'explanation': 'Each built-in aggregator body (two lambdas and four nested functions of Table.aggregate, extracted with their closures) equals its textbook spec on an arbitrary group; Vector.sum/mean/min/max/stdev equal the same spec functions (whole-column agreement by construction). The partition loop is under a discharged quantified invariant (every row in exactly one bucket, buckets ascending, keys in first-appearance order; arbitrary rows, one key column); and the result assembly is proved for an arbitrary group (exit assertion on the real text: one row per distinct key in first-appearance order, key column = the keys, value column = the spec of the aggregator applied to exactly the rows of the bucket of that key; SUM in the quick tier, MEAN / MIN / MAX / COUNT in the thorough tier; one key column, one aggregated column, rows unbounded). STDEV assembly, several keys / columns, custom `apply` functions and output naming are bounded only.',
+        'explanation': 'Each built-in aggregator body (two lambdas and four nested functions of Table.aggregate, extracted with their closures) equals its textbook spec on an arbitrary group; Vector.sum/mean/min/max/stdev equal the same spec functions (whole-column agreement by construction). The partition loop is under a discharged quantified invariant (every row in exactly one bucket, buckets ascending, keys in first-appearance order; arbitrary rows, one key column); and the result assembly is proved for an arbitrary group (exit assertion on the real text: one row per distinct key in first-appearance order, key column = the keys, value column = the spec of the aggregator applied to exactly the rows of the bucket of that key; SUM in the quick tier, MEAN / MIN / MAX / COUNT in the thorough tier; one key column, one aggregated column, rows unbounded). STDEV assembly, several keys / columns, custom `apply` functions and output naming are bounded only. The partition loop and the SUM assembly are also proved for TWO key columns (thorough tier).',
         'trusted': ['sum/min/max/len uninterpreted; A-real'],
     },
     'C13': {
         'level': 'proof',
-        'explanation': 'The six window aggregators equal the same spec functions as the aggregate ones (so window and aggregate values agree by construction of the proof); and the whole pipeline is proved on the real text for one key vector and one aggregated column, any number of rows: the partition loop (invariant of aggregate plus `row_keys[i]` = key of row i), the group-map loop of the nested `compute_group_values` (domain = the first k keys; for an arbitrary but fixed group G the stored value is fn applied to exactly the values of the bucket of G), `expand_to_rows`, and an exit assertion for an arbitrary row R: same row count as the input, key column reproduced unchanged (same objects), and the value of row R is the aggregator spec of the group of R - the same spec function the aggregate proof (C12) uses, so window and aggregate agree by construction. SUM in the quick tier, MEAN / MIN / MAX / COUNT in the thorough tier. STDEV, several keys / columns, custom apply functions and naming are bounded only (interleaved groups, None keys, equal-but-distinct keys).',
+        'explanation': 'The six window aggregators equal the same spec functions as the aggregate ones (so window and aggregate values agree by construction of the proof); and the whole pipeline is proved on the real text for one key vector and one aggregated column, any number of rows: the partition loop (invariant of aggregate plus `row_keys[i]` = key of row i), the group-map loop of the nested `compute_group_values` (domain = the first k keys; for an arbitrary but fixed group G the stored value is fn applied to exactly the values of the bucket of G), `expand_to_rows`, and an exit assertion for an arbitrary row R: same row count as the input, key column reproduced unchanged (same objects), and the value of row R is the aggregator spec of the group of R - the same spec function the aggregate proof (C12) uses, so window and aggregate agree by construction. SUM in the quick tier, MEAN / MIN / MAX / COUNT in the thorough tier. STDEV, several keys / columns, custom apply functions and naming are bounded only (interleaved groups, None keys, equal-but-distinct keys). The partition loop and the SUM pipeline are also proved for TWO key columns (thorough tier).',
         'trusted': ['sum/min/max/len uninterpreted; A-real'],
     },
     'C14': {
